@@ -14,4 +14,13 @@ def bodyT (t : SuiteT) (b : List Stmt) : List Stmt := t.funcBodyF (t.suiteF fals
 def scopeStable (t : SuiteT) (m : Module) : Bool :=
   (collect m.body).all fun e => (bindTop (bodyT t e.2.2)).map canonNames == (bindTop e.2.2).map canonNames
 
+def defName : Stmt → Option String
+  | .functionDef _ n _ _ _ _ _ => some n
+  | _ => none
+
+/-- the names of the module-level `def` statements (T01.17 needs them distinct: the static table holds one body per name) -/
+def defNames : List Stmt → List String
+  | [] => []
+  | st :: rest => (match defName st with | some n => [n] | none => []) ++ defNames rest
+
 end PMV.PyCore
